@@ -529,4 +529,131 @@ theorem rxProbe_total (s : Sched) (tn fn : Nat) (ts : Ts) (L : Layout) (hlen : t
   · exact ⟨_, rfl⟩
   · split <;> exact ⟨_, rfl⟩
 
+/-! ## histories of scheduler calls -/
+
+/-- the calls a user of the scheduler makes -/
+inductive Op where
+  | cfg (tn config : Nat)     -- `l1sched_configure_ts`
+  | del (tn : Nat)            -- `l1sched_del_ts`
+  | rts (tn : Nat)            -- `l1sched_reset_ts`
+  | rst                       -- `l1sched_reset`
+  | act (tn chan : Nat)       -- `l1sched_activate_lchan(sched->ts[tn], chan)` if the timeslot exists
+  | deact (tn chan : Nat)     -- `l1sched_deactivate_lchan(sched->ts[tn], chan)` if the timeslot exists
+  | rx (tn fn : Nat)          -- `l1sched_handle_rx_burst`
+  | tx (tn fn : Nat)          -- `l1sched_pull_burst`
+  | probe (tn fn : Nat)       -- `l1sched_handle_rx_probe`
+
+/-- one call: the new scheduler state -/
+def stepOp (s : Sched) : Op → Except Crash Sched
+  | .cfg tn c => (configureTs s tn c).map fun r => r.2.1
+  | .del tn => (delTs s tn).map fun r => r.1
+  | .rts tn => (resetTs s tn).map fun r => r.2.1
+  | .rst => (resetAll s).map fun r => r.1
+  | .act tn ch => do
+    match ← getTs s tn with
+    | none => pure s
+    | some ts =>
+      let r ← activateLchan ts ch
+      pure (setTs s tn (some r.2))
+  | .deact tn ch => do
+    match ← getTs s tn with
+    | none => pure s
+    | some ts =>
+      let r ← deactivateLchan ts ch
+      pure (setTs s tn (some r.2))
+  | .rx tn fn => (handleRxBurst s tn fn).map fun r => r.sched
+  | .tx tn fn => (pullBurst s tn fn).map fun _ => s
+  | .probe tn fn => (rxProbe s tn fn).map fun _ => s
+
+def runOps (s : Sched) : List Op → Except Crash Sched
+  | [] => .ok s
+  | op :: rest =>
+    match stepOp s op with
+    | .error e => .error e
+    | .ok s' => runOps s' rest
+
+/-- a timeslot as the scheduler functions leave it when every configuration succeeded: the
+    list head is initialised, and if it has a layout, it is a real one and the channel states
+    are exactly those of its mask -/
+def TsInv (ts : Ts) : Prop :=
+  ts.lchansInit = true ∧
+  (ts.layout = none ∨ ∃ L, L ∈ layouts ∧ L.config ≠ .NONE ∧ ts.layout = some L ∧
+    ts.lchans.map (·.type) = (List.range L1SCHED_CHAN_MAX).filter fun t => L.lchanMask.testBit t)
+
+def Inv (s : Sched) : Prop :=
+  s.ts.length = TRX_TS_COUNT ∧ ∀ (tn : Nat) (ts : Ts), s.ts[tn]? = some (some ts) → TsInv ts
+
+/-- the calls the property speaks about: timeslots 0..7, channel combinations that have a
+    real layout on that timeslot, channel numbers of the enum -/
+def OpOk : Op → Prop
+  | .cfg tn c => tn < TRX_TS_COUNT ∧ ∃ L, layoutForVal c tn = some L ∧ L.config ≠ .NONE
+  | .act tn ch => tn < TRX_TS_COUNT ∧ ch ≤ L1SCHED_CHAN_MAX
+  | .deact tn _ => tn < TRX_TS_COUNT
+  | .del tn => tn < TRX_TS_COUNT
+  | .rts tn => tn < TRX_TS_COUNT
+  | .rx tn _ => tn < TRX_TS_COUNT
+  | .tx tn _ => tn < TRX_TS_COUNT
+  | .probe tn _ => tn < TRX_TS_COUNT
+  | .rst => True
+
+theorem inv_init : Inv initSched := by
+  refine ⟨by simp [initSched], fun tn ts h => ?_⟩
+  simp only [initSched] at h
+  by_cases hlt : tn < TRX_TS_COUNT
+  · rw [List.getElem?_eq_getElem (by simpa using hlt), List.getElem_replicate] at h
+    cases h
+  · rw [List.getElem?_eq_none (by simp; omega)] at h
+    cases h
+
+theorem inv_setTs (s : Sched) (tn : Nat) (o : Option Ts) (h : Inv s) (ho : ∀ ts, o = some ts → TsInv ts) :
+    Inv (setTs s tn o) := by
+  refine ⟨by simp [setTs, h.1], fun k ts hk => ?_⟩
+  simp only [setTs] at hk
+  by_cases hkt : tn = k
+  · subst hkt
+    by_cases hlt : tn < s.ts.length
+    · rw [List.getElem?_set_self hlt] at hk
+      exact ho ts (Option.some.inj hk)
+    · rw [List.getElem?_eq_none (by simp only [List.length_set]; omega)] at hk
+      cases hk
+  · rw [List.getElem?_set_ne hkt] at hk
+    exact h.2 k ts hk
+
+theorem inv_get (s : Sched) (h : Inv s) (tn : Nat) (htn : tn < TRX_TS_COUNT) :
+    ∃ o, getTs s tn = .ok o ∧ s.ts[tn]? = some o ∧ ∀ ts, o = some ts → TsInv ts := by
+  have hlt : tn < s.ts.length := by rw [h.1]; exact htn
+  refine ⟨s.ts[tn], getTs_of_lt s tn hlt, List.getElem?_eq_getElem hlt, fun ts hts => ?_⟩
+  exact h.2 tn ts (by rw [List.getElem?_eq_getElem hlt, hts])
+
+theorem tsInv_updFirst (ts : Ts) (h : TsInv ts) (chan : Nat) (f : LchanState → LchanState)
+    (hf : ∀ l, (f l).type = l.type) : TsInv { ts with lchans := updFirst chan f ts.lchans } := by
+  refine ⟨h.1, ?_⟩
+  rcases h.2 with hn | ⟨L, h1, h2, h3, h4⟩
+  · exact Or.inl hn
+  · exact Or.inr ⟨L, h1, h2, h3, by simp only [updFirst_types chan f hf]; exact h4⟩
+
+theorem delTs_inv (s : Sched) (h : Inv s) (tn : Nat) (htn : tn < TRX_TS_COUNT) :
+    ∃ s' evs, delTs s tn = .ok (s', evs) ∧ Inv s' := by
+  obtain ⟨o, hg, _, ho⟩ := inv_get s h tn htn
+  cases o with
+  | none =>
+    refine ⟨s, [], ?_, h⟩
+    simp only [delTs, hg, bind, Except.bind, pure, Except.pure]
+  | some ts =>
+    have hi := (ho ts rfl).1
+    refine ⟨setTs s tn none, [.pchanComb tn Pchan.NONE.val], ?_, inv_setTs s tn none h (fun _ hc => by cases hc)⟩
+    simp only [delTs, hg, bind, Except.bind, deactivateAll, hi, Bool.not_true, Bool.false_eq_true, if_false, pure,
+      Except.pure]
+
+theorem delAll_inv (l : List Nat) (hl : ∀ tn ∈ l, tn < TRX_TS_COUNT) :
+    ∀ (s : Sched) (evs : List Ev), Inv s → ∃ s' evs', delAll s evs l = .ok (s', evs') ∧ Inv s' := by
+  induction l with
+  | nil => intro s evs h; exact ⟨s, evs, rfl, h⟩
+  | cons tn rest ih =>
+    intro s evs h
+    obtain ⟨s1, e1, h1, hi1⟩ := delTs_inv s h tn (hl tn (by simp))
+    obtain ⟨s2, e2, h2, hi2⟩ := ih (fun k hk => hl k (by simp [hk])) s1 (evs ++ e1) hi1
+    refine ⟨s2, e2, ?_, hi2⟩
+    simp only [delAll, h1, bind, Except.bind, h2]
+
 end OsmoVerif.TrxSched
